@@ -597,8 +597,11 @@ def generator_identifiers():
     kw = set(re.findall(r'"([a-z_0-9]+)"', re.search(r"cpp_keywords\{(.*?)\};", open(os.path.join(
         src, "sbe_schema_cpp_validator.hpp")).read(), re.S).group(1)))
     prims = set(namegen.PSIZE.keys())
+    # names the validator itself reserves for the generated code (rejected with a diagnostic): read from the source
+    m = re.search(r"is_generated_code_name\(.*?\{(.*?)return(.*?);", open(os.path.join(src, "sbe_schema_cpp_validator.hpp")).read(), re.S)
+    reserved = set(re.findall(r'str == "([^"]+)"', m.group(2))) if m else set()
     out = sorted(i for i in ids if i not in kw and len(i) <= 32 and not i.startswith("__") and i not in ("std", "posix")
-                 and i not in namegen.PROBE_NAMES and i.lower() not in prims
+                 and i not in namegen.PROBE_NAMES and i not in reserved and i.lower() not in prims
                  # the library's own macros: entities named like a macro are the recorded finding compile:macro-name
                  and not i.startswith("SBEPP_"))
     return out
